@@ -36,7 +36,7 @@ def _answers(prop, tier, system, thms, modes=(False,), level="model_checking"):
     if system in ("z", "w", "l", "p"):
         # implementation-shaped algorithms refine the definitions; inputs that tell the named wrong variants apart are always replayed
         infer.verify_algo(chk, tier)
-        dcases = infer.distinguishing_cases(rng) + infer.distinguishing_cases(rng, "wAnyTie") + infer.distinguishing_cases(rng, "lexAllMcsF")
+        dcases = infer.distinguishing_cases(rng) + infer.distinguishing_cases(rng, "wAnyTie") + infer.distinguishing_cases(rng, "lexAllMcsF") + infer.distinguishing_cases(rng, "wMinCard")
         dcases += [c for c in (infer.gen_case_defaults(rng) for _ in range(60 if tier == "quick" else 1500)) if c]
         if tier == "thorough":
             found = [p for p in infer.search_distinguishing(chk, rng, 20000) if p.get("variant") == "lexAllPairs"]
@@ -347,11 +347,22 @@ def check_C17(tier):
         for q in c["qs"][:4]:
             ops.append(["cop", 1, (q["B"], q["A"])])
             ops.append(["accept", 1, (q["B"], q["A"])])
-        if len(scen) % 4 == 0:
+        if len(scen) % 2 == 0:
             ops.append(["front", 1, 60])
         sc["ops"] = ops
         scen.append(sc)
+    # bases whose Pareto front has several elements (a falsification can be charged to alternative conditionals)
+    V = M.V
+    multi = [
+        (["a", "b"], [(V("b"), V("a")), (M.Or(V("b"), M.Not(V("a"))), M.TOP)]),
+        (["a", "b", "f"], [(V("f"), V("b")), (V("a"), V("b")), (V("a"), M.And(V("f"), V("b")))]),
+        (["p", "b", "f"], [(V("f"), V("b")), (M.Not(V("f")), V("p")), (M.Not(V("f")), M.And(V("b"), V("p"))), (V("b"), V("p"))]),
+        (["a", "b", "c"], [(V("c"), V("a")), (V("c"), V("b")), (M.Or(V("c"), M.Not(M.Or(V("a"), V("b")))), M.TOP)]),
+    ]
+    for sig_, base_ in multi:
+        scen.append({"kind": "c", "sig": sig_, "base": base_, "facts": [], "extended": None, "seed": rng.randrange(1 << 30), "ops": [["all", 1], ["front", 1, 60]]})
     keep = ocf.run_lifecycles(chk, scen, "crep")
+    chk.cov["fronts_with_several_vectors"] = sum(1 for r in keep for e in r["events"] if e["ev"] == "front" and len(e["vectors"]) >= 2)
     chk.cov["fronts_enumerated"] = sum(1 for r in keep for e in r["events"] if e["ev"] == "front")
     chk.cov["single_conditional_bases"] = sum(1 for r in keep if len(r["sc"]["base"]) == 1)
     chk.cov["bases_with_unfalsifiable_conditional"] = sum(1 for r in keep if any(2 not in v for v in r["env"]["base"]))
